@@ -549,3 +549,45 @@ func VerifSortedAddrs(vals []*types.Validator) []common.Address {
 	sort.SliceStable(out, func(i, j int) bool { return false })
 	return out
 }
+
+// ---- accessors that work for both the simulated application and the full stack
+
+// SavedRecords lists every SaveBlock call the node made, in order.
+func (n *VerifNode) SavedRecords() []VerifCommitRecord {
+	if n.Full != nil {
+		return n.Full.Saved
+	}
+	return n.App.Saved
+}
+
+func (n *VerifNode) LoadBlockCommit(h uint64) *types.Commit {
+	return n.CS.blockOperations.LoadBlockCommit(h)
+}
+func (n *VerifNode) LoadBlockMeta(h uint64) *types.BlockMeta {
+	return n.CS.blockOperations.LoadBlockMeta(h)
+}
+func (n *VerifNode) LoadBlockPart(h uint64, i int) *types.Part {
+	return n.CS.blockOperations.LoadBlockPart(h, i)
+}
+
+// VerifOpenWAL opens (and starts) a real BaseWAL on the given file.
+func VerifOpenWAL(path string) (WAL, error) {
+	w, err := NewWAL(path)
+	if err != nil {
+		return nil, err
+	}
+	w.SetLogger(log.New())
+	if err := w.Start(); err != nil {
+		return nil, err
+	}
+	return w, nil
+}
+
+// StopWAL stops the node's WAL (flushes it) if it is a real one.
+func (n *VerifNode) StopWAL() {
+	defer func() { recover() }()
+	if n.CS != nil && n.CS.wal != nil {
+		n.CS.wal.Stop()
+		n.CS.wal.Wait()
+	}
+}
